@@ -24,7 +24,7 @@ Max2(a, b) == IF a > b THEN a ELSE b
 
 ObsInit == [cfg |-> [props |-> <<>>, max_clients |-> 0, server_addrs |-> 1], tok |-> <<>>, cli |-> <<>>,
             nonce |-> <<>>, surfS |-> {}, surfC |-> {}, maxSeen |-> <<>>, reqs |-> {}, chals |-> {}, conn |-> <<>>,
-            sess |-> <<>>, lastPending |-> <<>>, lowered |-> FALSE, lastAuthS |-> <<>>, lastAuthC |-> <<>>, loS |-> <<>>, loC |-> <<>>, heal |-> [on |-> FALSE, bound |-> 0 - 1, rounds |-> 0, cs |-> <<>>],
+            sess |-> <<>>, ended |-> {}, bind |-> <<>>, lastPending |-> <<>>, lowered |-> FALSE, lastAuthS |-> <<>>, lastAuthC |-> <<>>, loS |-> <<>>, loC |-> <<>>, heal |-> [on |-> FALSE, bound |-> 0 - 1, rounds |-> 0, cs |-> <<>>],
             flags |-> {}]
 
 ObsReset(cfg) == [ObsInit EXCEPT !.cfg = cfg]
@@ -68,12 +68,16 @@ ObsEmit(o, d) ==
     IN FlagIf(o2, d.len > MAXDGRAM, <<"C13", "Netcode">>)
 
 \* is the presented datagram certainly not authentic for the session it addresses ?
-NonAuth(o, d, atServer) ==
+NonAuth(o, d, atServer, from) ==
     \/ ("nonauth" \in DOMAIN d /\ d.nonauth)
     \/ d.label \in {"garbage"}
     \/ (d.label \in {"mutated", "truncated"} /\ d.kind # "Request")
     \/ (d.label = "replay" /\ d.kind \in {"KeepAlive", "Payload", "Disconnect"})
-    \/ (d.label = "readdressed" /\ d.kind \in {"KeepAlive", "Payload", "Disconnect", "Response", "Challenge", "Denied"})
+    \* a sealed datagram presented to the server from an address whose handshake was made with another token (to the
+    \* server an address IS the peer: a relay that rewrites the source address consistently is not an attack; a client
+    \* cannot tell to which address the server sent a datagram: there only the keys decide)
+    \/ (atServer /\ d.kind \in {"KeepAlive", "Payload", "Disconnect", "Response", "Challenge", "Denied"} /\ d.key # "none"
+          /\ Get(o.bind, from, "none") # d.tok)
 
 (***************************************************************************)
 (* Server table invariants (C10)                                           *)
@@ -115,6 +119,7 @@ ObsConnEvent(o, r, now) ==
             \* the nonce scope of C17 is one connection attempt and the session that follows
             gone == {k \in DOMAIN o.nonce : \E t \in DOMAIN o.tok : o.tok[t].id = r.id /\ k[1] = "s2c:" \o t}
             o1 == [o EXCEPT !.sess = [x \in (DOMAIN @) \ {r.id} |-> @[x]],
+                            !.ended = @ \cup {t \in DOMAIN o.tok : o.tok[t].id = r.id},
                             !.nonce = [k \in (DOMAIN @) \ gone |-> @[k]]]
         IN FlagIf(o1, ~known \/ ~same, <<"C10", "EventsMatch">>)
     ELSE o
@@ -130,7 +135,7 @@ ObsSDeliver(o, e) ==
         now == e.snap0.t
         connectedAddrs == Range(SnapAddrs(e.snap0))
         unproven == e.from \notin connectedAddrs
-        nonauth == NonAuth(o, d, TRUE)
+        nonauth == NonAuth(o, d, TRUE, e.from)
         \* ---- C04: payloads ----
         nonceKey == <<d.key, d.seq>>
         T == IF d.tok \in DOMAIN o.tok THEN o.tok[d.tok] ELSE [id |-> 0 - 1, ud |-> 0 - 1, sealed |-> "F", proto |-> "Q", tamper |-> "x", ok |-> FALSE, expire |-> 0, hosts |-> {}, timeout |-> 0, create |-> 0]
@@ -148,7 +153,8 @@ ObsSDeliver(o, e) ==
         \* ---- C05: who may connect ----
         tsecs == Secs(now)
         reqOK(q) == q.addr = e.from /\ q.tok \in DOMAIN o.tok /\ o.tok[q.tok].id = r.id /\ o.tok[q.tok].ud = r.ud /\ q.valid
-                    /\ ~(\E q2 \in o.reqs : q2.tok = q.tok /\ q2.addr # q.addr /\ q2.n < q.n)
+                    \* "already used from a different address": the server acted on (answered) an earlier request carrying it
+                    /\ ~(\E q2 \in o.reqs : q2.tok = q.tok /\ q2.addr # q.addr /\ q2.n < q.n /\ q2.answered)
         sound == /\ \E q \in o.reqs : reqOK(q)
                  /\ d.kind = "Response" /\ d.intact
                  /\ <<d.cseq, r.id>> \in o.chals
@@ -169,7 +175,9 @@ ObsSDeliver(o, e) ==
                         /\ [clients |-> Frozen(e.snap0).clients, n |-> e.snap0.n] # [clients |-> Frozen(e.snap1).clients, n |-> e.snap1.n]
                      THEN {<<"C10", "FullRefuses">>} ELSE {})
         \* ---- C19: no amplification towards unproven addresses ----
-        validReq == d.kind = "Request" /\ d.label # "garbage" /\ ~nonauth /\ TokValid(o, d.tok, tsecs)
+        validReq == /\ d.kind = "Request" /\ d.label # "garbage" /\ ~nonauth /\ TokValid(o, d.tok, tsecs)
+                    \* a token the server already acted on for another address is not valid from this one
+                    /\ ~(\E q2 \in o.reqs : q2.tok = d.tok /\ q2.addr # e.from /\ q2.answered)
         validResp == d.kind = "Response" /\ d.intact /\ ~nonauth /\ <<d.cseq, d.cid>> \in o.chals
         F19 == IF unproven /\ e.reply.kind # "None"
                THEN (IF e.reply.to # e.from THEN {<<"C19", "SameAddr">>} ELSE {})
@@ -180,7 +188,8 @@ ObsSDeliver(o, e) ==
         isReq == d.kind = "Request" /\ d.tok \in DOMAIN o.tok
         reqs1 == IF isReq
                  THEN o.reqs \cup {[addr |-> e.from, tok |-> d.tok, n |-> Cardinality(o.reqs) + 1,
-                                    valid |-> (~nonauth /\ d.label # "garbage" /\ d.proto = "P" /\ TokValid(o, d.tok, tsecs))]}
+                                    valid |-> (~nonauth /\ d.label # "garbage" /\ d.proto = "P" /\ TokValid(o, d.tok, tsecs)),
+                                    answered |-> e.reply.kind # "None"]}
                  ELSE o.reqs
         chals1 == IF e.reply.kind = "Challenge" THEN o.chals \cup {<<e.reply.cseq, e.reply.cid>>} ELSE o.chals
         surf1 == IF r.type = "Payload" THEN o.surfS \cup {nonceKey} ELSE o.surfS
@@ -194,7 +203,9 @@ ObsSDeliver(o, e) ==
                   THEN Put(o.lastAuthS, sid, now) ELSE o.lastAuthS
         authLo == IF sid >= 0 /\ d.intact /\ ~nonauth /\ d.label = "genuine" /\ d.kind \in {"KeepAlive", "Payload"} /\ T.id = sid
                   THEN Put(o.loS, sid, now) ELSE o.loS
-        o1 == [o EXCEPT !.reqs = reqs1, !.chals = chals1, !.surfS = surf1, !.maxSeen = seen1, !.lastAuthS = authHi, !.loS = authLo]
+        \* the token an address is bound to: the one of the last request from it that was answered with a challenge
+        bind1 == IF e.reply.kind = "Challenge" /\ d.kind = "Request" THEN Put(o.bind, e.from, d.tok) ELSE o.bind
+        o1 == [o EXCEPT !.bind = bind1, !.reqs = reqs1, !.chals = chals1, !.surfS = surf1, !.maxSeen = seen1, !.lastAuthS = authHi, !.loS = authLo]
         o2 == ObsConnEvent(o1, r, now)
         o3 == ObsEmit(o2, e.reply)
         o4 == SnapCheck(Flag(o3, F4 \cup F5 \cup F7 \cup F10 \cup F19), e)
@@ -208,7 +219,7 @@ ObsCDeliver(o, e) ==
         c == e.c
         known == c \in DOMAIN o.cli
         tok == IF known THEN o.cli[c].tok ELSE "none"
-        nonauth == NonAuth(o, d, FALSE) \/ (d.key # "none" /\ d.key # "s2c:" \o tok) \/ d.kind \in {"Request", "Garbage"}
+        nonauth == NonAuth(o, d, FALSE, 0) \/ (d.key # "none" /\ d.key # "s2c:" \o tok) \/ d.kind \in {"Request", "Garbage"}
         nonceKey == <<d.key, d.seq, c>>
         authentic == d.kind = "Payload" /\ d.intact /\ d.key = "s2c:" \o tok /\ d.proto = "P" /\ e.res.ptag = d.ptag /\ e.res.plen = d.plen
         effect == e.res.some \/ e.cs1.status # e.cs0.status \/ e.cs1.reason # e.cs0.reason \/ e.cs1.age < e.cs0.age
@@ -329,4 +340,8 @@ ObsStep(o, e) ==
     IN [o2 EXCEPT !.flags = {f \in @ : f[1] \in Props(o2)}]
 
 Detail(o, e) == [sess |-> o.sess, chals |-> o.chals, reqs |-> o.reqs]
+
+\* cause tag of a flagged event (part of the violation signature used by known_findings.json): a datagram of a token whose
+\* session had already ended is a presentation "after_session" (D18)
+Cause(o, e) == IF "d" \in DOMAIN e /\ e.d.tok \in o.ended THEN "after_session" ELSE "none"
 =============================================================================
